@@ -101,6 +101,26 @@ ADDED = {
 for _k, _v in ADDED.items():
     CHECKS[_k]["text"] = CHECKS[_k]["text"] + " " + _v
 
+ADDED2 = {
+ "C02": "Rounds 8-10: bulk adds of 12-300 statements, merges that bring in statements referenced at or just above the lock value.",
+ "C03": "Rounds 8-10: where a token may sit (position clauses), placeholder prefixes, equally long files sharing head and tail.",
+ "C05": "Rounds 8-10: trees without statements, non-ASCII file names, a character above U+FFFF before a statement, byte-identical copies of files.",
+ "C06": "Rounds 8-10: statement-less trees, locks that are behind the code.",
+ "C07": "Rounds 8-10: stop signals at every scratch operation, crash points with TMPDIR unset (private /tmp in a mount namespace), a new file below the source directory counts as an affected project.",
+ "C08": "Rounds 8-10: renames failing for ever with EBUSY/EINTR/EAGAIN/ETIMEDOUT, the scratch copy removed by another process just before its rename.",
+ "C09": "Rounds 8-10: code before the statement on its line, tight separators, the program as one file of a larger tree with other modules and unloadable files (creation order shuffled).",
+ "C10": "Rounds 8-10: foreign-module uses of configured names first in the file, macro sets whose names are suffixes / prefixes of each other.",
+ "C12": "Rounds 8-10: bracket tags after a token, non-token insertions are violations, a third of the files also with the cache on and a lock behind the code.",
+ "C13": "Rounds 8-10: comparison / shift operators and spaced modifiers in values, the edited file is checked again (what was added reads back as ref = N).",
+ "C14": "Rounds 8-10: code before the subject on its line, ignored statements with huge references, multi-line subjects closing right after their last argument with a statement on the closing line, quote characters in code before a trailing directive; open known finding D24 (string literals holding `//` or directive text on the line above).",
+ "C15": "Rounds 8-10: names differing only in case, a directory that cannot be listed (opendir fails), directories other tools skip next to their markers (target/ beside Cargo.toml, node_modules, .git, git-ignored, CACHEDIR.TAG, virtualenv).",
+ "C16": "Rounds 8-10: duplicate key, valid locks behind / before a 260 B - 70 KiB comment block, CRLF locks.",
+ "C17": "Rounds 8-10: one-character-off macro names, trees of unreadable files only; a process blocked on itself (no runnable thread, no CPU tick while watched) is a hang decided on process state, reduced to a small set of files.",
+ "C18": "Rounds 8-10: the end-of-run exemption requires that no further source file is opened; trees with statement-less and empty files.",
+}
+for _k, _v in ADDED2.items():
+    CHECKS[_k]["text"] = CHECKS[_k]["text"] + " " + _v
+
 def main():
     checks = []
     for pid in ALL:
